@@ -35,6 +35,10 @@ def run(out, drv, info):
                        'bytes_to_human rounding is presentation: sizes are compared after parsing to (2-decimal value, unit)',
                        'WF: every stored object is what its name says (C04); CPython re / datetime / json modelled, not verified']
     n_worlds, n_ops = (160, 12) if quick else (1600, 16)
+    changed = sorted(k for k in info.get('extract_notes', {}) if k.startswith(('select.', 'section:06_access')))
+    if changed:      # the selection / sorting code is no longer in the recognised shape: not a broken tie, but look harder (DESIGN §3.1)
+        n_worlds *= 2
+        out.extra['unrecognised_guards'] = changed
     logs = A.run_worlds(out, drv, 'C15', n_worlds, n_ops, 'c15', 'c15')
     tot = {}
     for log in logs:
